@@ -20,12 +20,21 @@ THEOREMS = [
     'Wu.unbuffered_refines_fifo', 'Wu.buffered_unbuffered_agree',
     # configuration -> receive path (WebSocket.__init__): WsMode / WsModeProofs
     'Wm.path_ignores_version', 'Wm.buffered_iff', 'Wm.direct_iff', 'Wm.configured_capacity_bound', 'Wm.flags_table',
+    # histories of connections on one falcon.asgi.App object (ws_options changed between connections): WsMode / WsModeProofs
+    'Wm.serve_append', 'Wm.inForce_append', 'Wm.inForce_connects', 'Wm.connection_wiring', 'Wm.reconfigured_capacity_honoured', 'Wm.reconfigured_path',
+    'Wm.fresh_app_default', 'Wm.serve_length',
 ]
 STATEMENTS = {
     'Wm.path_ignores_version': 'WebSocket.__init__: the ASGI spec version announced by the server has no influence on which receive path the socket is wired to',
     'Wm.buffered_iff': 'the socket uses a buffered receiver of capacity cap iff max_receive_queue = cap > 0 (every configured capacity is honoured exactly, under every spec version)',
     'Wm.direct_iff': 'the unbuffered (direct) path is used iff max_receive_queue = 0',
     'Wm.configured_capacity_bound': 'for every spec version and every max_receive_queue = q wired to a buffered receiver, every invariant state of that receiver holds at most q + 1 events',
+    'Wm.connection_wiring': 'falcon.asgi.App: after any history of option changes and connections, the next connection is wired from the max_receive_queue in force at that moment (nothing of an earlier connection survives in the App object)',
+    'Wm.inForce_connects': 'serving connections does not change the options',
+    'Wm.reconfigured_capacity_honoured': 'whatever one App object served before, after ws_options.max_receive_queue = q every later connection (any number of other connections in between, any announced spec version) is wired exactly as a WebSocket constructed with q',
+    'Wm.reconfigured_path': 'such a connection runs the buffered receiver of capacity q if q > 0 and the direct (unbuffered) path, without a pump task, if q = 0',
+    'Wm.fresh_app_default': 'an App object whose ws_options were never touched serves every connection with a receive queue of 4',
+    'Wm.serve_length': 'one WebSocket per connection of the history',
     'Wb.segments_preserve': 'every atomic segment (what one task does between two awaits) of the pump task, of receive(), of a cancelled receive(), of _send and of stop() preserves the invariant: queue <= capacity; a pending pop-waiter implies an empty queue (no lost wake-up); a pump parked for room implies a full queue; waiter cells and attributes agree; app parked <=> pop-waiter exists; pump holding <=> put-waiter exists. Any enabled segment may fire, so the invariant holds under every schedule',
     'Wb.segments_conserve': 'every segment except stop() keeps  returned-to-the-application ++ held-by-the-framework = held-before ++ delivered-by-the-server  (as lists: order, no loss, no duplication)',
     'Wb.fifo_lossless_once': 'for every event log the trace-inclusion checker accepts (any interleaving of segments, no stop in it), from a state satisfying the invariant: what receive() returned followed by what is still held equals what was held before followed by what the server delivered, in order; and the invariant holds at the end',
@@ -68,11 +77,24 @@ ASSUMPTIONS = [
     'configurations: ASGI spec versions 2.0, 2.1, 2.2, 2.3, 2.4, 2.5, 2.10 (canonical "2.<minor>" strings, the versions falcon.asgi.App accepts), default_close_reasons empty or the stock table, '
     'the WebSocket constructed directly or by falcon.asgi.App from ws_options.max_receive_queue and the scope; the scripted server\'s send() never raises in the buffered session (a server that does '
     'not report the lost connection itself: the framework\'s own read-ahead is then the only way a sender learns of it)',
+    'histories on one falcon.asgi.App object: 1..3 routed connections (sometimes preceded by one to an unknown route), served one after the other (not concurrently); ws_options.max_receive_queue, '
+    'media_handlers, default_close_reasons and error_close_code are changed between connections and between construction and the first connection, never during a connection; the Lean model Wm.serve '
+    'covers max_receive_queue only (the other three options are judged by the oracle on what reaches the server)',
+    'send entry points: send_text, send_data (bytes/bytearray/memoryview), send_media with the default, an explicit TEXT and an explicit BINARY payload type (trivial tagged media handlers; the stock BINARY '
+    'handler needs msgpack) and close(); the Wb and Wu models have one send step - the entry point is a label of the harness, all entry points must behave as that step',
     'one receiver at a time (the framework asserts it); send/close may be issued from another task, which the schedule does',
     'unbuffered mode (max_receive_queue = 0): receive_text/receive_data, send_text, accept, close are modelled; receive_media (media handlers) and close reasons are not; a send that fails at the server, or close(), '
     'closes the socket and later receives raise without pulling - events still at the server are then not delivered, by design (same in buffered mode)',
     'promptness of the disconnect report to a sender is stated per loop turn: after the disconnect event was handed to the pump and the ready queue has turned once, every send raises; before it was handed over, none does',
 ]
+RULE_HISTORY = (' Connection histories: every WebSocket of the entry point "app" is made by a falcon.asgi.App object that serves a history of 1..3 connections (plus, for every fifth, one to an unknown '
+                'route first) with max_receive_queue, media_handlers, default_close_reasons (alternately assigned / changed in place) and error_close_code changed before each, a new App sometimes left at the stock queue '
+                'of 4; directed: every pair and every triple of capacities 0..4 in turn on one App object, each connection in a scenario where its own capacity matters (capacity + 3 events handed over while nobody '
+                'receives / a sending-only application around the disconnect / one message then close). The ending "close" of an App connection is performed by the responder (ws.close()), by the App after the responder '
+                'returned, or by the App\'s error handler after the responder raised (error_close_code in force), rotating. Send entry points: the i-th S step of a run uses sends[i % len] out of send_text, send_data, '
+                'send_media(obj), send_media(obj, TEXT), send_media(obj, BINARY) - one entry point per enumerated run (rotating), random patterns of 1..4 in the random runs; a sender that was told about the disconnect '
+                'keeps trying; directed: a sending-only application, capacity 0..4 x 0..capacity unread messages in front of the disconnect x 5 single entry points + 2 mixed patterns x 7 continuations after the hand-over '
+                'x direct/app x close/drain, and in the unbuffered session each entry point before accept / open / with a failing server send / after a receive took the disconnect / after close().')
 RULE_CONFIG = (' Configuration dimension: every run carries an announced ASGI spec version out of 2.0/2.1/2.2/2.3/2.4/2.5/2.10, an entry point (WebSocket constructed directly, or by a real falcon.asgi.App '
                'from ws_options.max_receive_queue + scope[asgi][spec_version], the responder accepting and parking) and default_close_reasons empty/stock - rotated over the enumerated schedules, random in the '
                'random ones, and the full cross product versions x entries x capacities 0..4 x disconnect x ending for every schedule of length <= 2. The oracle also demands read-ahead (one pull outstanding '
@@ -83,7 +105,8 @@ RULE_UNBUFFERED = (' Unbuffered session (Wu model): the same enumerated {D,R,Y,C
 RULE = ('every schedule over {D deliver, R start receive, Y run ready queue, C cancel pending receive, S send} of length <= 4 (quick) / <= 6 (thorough), every schedule over '
         '{D,R,Y} of length 5..6 (quick) / 7..8 (thorough), each followed by a deterministic drain (deliver all, receive all) or by close(); x capacities 0..4 x k = 1..2 (quick) / 1..3 (thorough) '
         'messages x with/without a trailing disconnect; plus, for capacities 1..4, "fill the queue and park the pump" followed by every tail of <= 2 steps and drain/close; plus random schedules of 5..40 steps with k <= 8. The real falcon.asgi.ws.WebSocket (source mode) is driven; '
-        'non-trivial = at least one message was delivered and received; distinct = distinct (capacity, k, disconnect, schedule, ending, spec version, entry point, close reasons)' + RULE_CONFIG + RULE_UNBUFFERED)
+        'non-trivial = at least one message was delivered and received; distinct = distinct (capacity, k, disconnect, schedule, ending, spec version, entry point, close reasons, send entry points, media handler, who closes, '
+        'history of the App object)' + RULE_CONFIG + RULE_HISTORY + RULE_UNBUFFERED)
 PARTIAL = ('the theorems are about the atomic-segment model; that asyncio runs the real coroutines segment by segment as modelled is established by trace inclusion on every generated '
            'schedule (exhaustive to the stated bounds), not by proof; liveness is stated fairness-free (buffered: no_lost_wakeup + resolved_receive_enabled; unbuffered: deliver_enabled_iff + '
            'parked_receive_completes). Unbuffered mode is proved over the Wu small-step model (one receiver at a time; receive_media and two concurrent receives are not modelled), which is tied to the real '
@@ -95,13 +118,98 @@ VERSIONS = ['2.0', '2.1', '2.2', '2.3', '2.4', '2.5', '2.10']      # around ever
 ENTRIES = ['direct', 'direct', 'app']
 
 
+SEND_KINDS = 'tdmTB'
+SEND_NAMES = {'t': 'send_text', 'd': 'send_data', 'm': 'send_media(obj)', 'T': 'send_media(obj, payload_type=TEXT)', 'B': 'send_media(obj, payload_type=BINARY)'}
+SEND_LEGEND = 'the i-th S step uses the send entry point sends[i % len]: ' + ', '.join('%s = %s' % kv for kv in SEND_NAMES.items())
+FINISHES = ['harness', 'return', 'raise']      # who calls close() in the ending "close" of an App connection: the responder itself, the App after the responder returned, the App's error handler
+LIMITS = (3, 2, 3, 1)                          # an App object serves that many connections (histories of 1..3), then the next App object is constructed
+ERR_CODES = (1011, 3011, 4000, 4999)           # ws_options.error_close_code, changed from connection to connection
+
+
 def cfg_at(j):
-    """the configuration of the j-th enumerated run: versions, entry points and close-reason tables rotate with co-prime periods"""
-    return {'ver': VERSIONS[j % 7], 'entry': ENTRIES[j % 3], 'reasons': j % 2 == 1}
+    """the configuration of the j-th enumerated run: versions, entry points, close-reason tables, send entry points, media handlers and who closes rotate with
+    (mostly) co-prime periods"""
+    return {'ver': VERSIONS[j % 7], 'entry': ENTRIES[j % 3], 'reasons': j % 2 == 1, 'sends': SEND_KINDS[j % 5], 'tagged': j % 4 < 2, 'finish': FINISHES[(j // 3) % 3]}
 
 
 def cfg_random(rnd):
-    return {'ver': rnd.choice(VERSIONS), 'entry': rnd.choice(ENTRIES), 'reasons': rnd.random() < 0.5}
+    return {'ver': rnd.choice(VERSIONS), 'entry': rnd.choice(ENTRIES), 'reasons': rnd.random() < 0.5,
+            'sends': ''.join(rnd.choice(SEND_KINDS) for _ in range(rnd.randint(1, 4))), 'tagged': rnd.random() < 0.5, 'finish': rnd.choice(FINISHES)}
+
+
+def send_points():
+    """every send entry point of falcon.asgi.WebSocket with the event the server must get from it, and trivial media handlers whose output names the handler
+    (the stock BINARY handler needs msgpack, which may be missing)"""
+    import json
+    import falcon
+    import falcon.media
+    PT = falcon.WebSocketPayloadType
+
+    class TagText(falcon.media.TextBaseHandlerWS):
+        def __init__(s, tag): s.tag = tag
+
+        def serialize(s, media): return s.tag + '|' + json.dumps(media)
+
+        def deserialize(s, payload): return json.loads(payload.partition('|')[2])
+
+    class TagBin(falcon.media.BinaryBaseHandlerWS):
+        def __init__(s, tag): s.tag = tag
+
+        def serialize(s, media): return s.tag.encode() + b'|' + json.dumps(media).encode()
+
+        def deserialize(s, payload): return json.loads(bytes(payload).partition(b'|')[2].decode())
+
+    def handlers(tag, tagged, stock):
+        """the media_handlers of one connection: TEXT stock JSON or tagged, BINARY always tagged"""
+        return {PT.TEXT: TagText(tag) if tagged else stock[PT.TEXT], PT.BINARY: TagBin(tag)}
+
+    async def do_send(ws, kind, n):
+        if kind == 't':
+            await ws.send_text('x%d' % n)
+        elif kind == 'd':
+            p = b'x%d' % n
+            await ws.send_data((p, bytearray(p), memoryview(p))[n % 3])
+        elif kind == 'm':
+            await ws.send_media({'n': n})
+        elif kind == 'T':
+            if n % 2: await ws.send_media({'n': n}, PT.TEXT)
+            else: await ws.send_media({'n': n}, payload_type=PT.TEXT)
+        else:
+            if n % 2: await ws.send_media({'n': n}, PT.BINARY)
+            else: await ws.send_media({'n': n}, payload_type=PT.BINARY)
+
+    def wrong_event(kind, n, tag, tagged, got):
+        """None if `got` (the events passed to the server by one send) is exactly the one event that entry point must deliver, else what is wrong"""
+        if len(got) != 1:
+            return '%d events reached the server instead of 1' % len(got)
+        ev = got[0]
+        if kind == 't':
+            want = {'type': 'websocket.send', 'text': 'x%d' % n}
+        elif kind == 'd':
+            want = {'type': 'websocket.send', 'bytes': b'x%d' % n}
+        elif kind == 'B':
+            want = {'type': 'websocket.send', 'bytes': tag.encode() + b'|' + json.dumps({'n': n}).encode()}
+        elif tagged:
+            want = {'type': 'websocket.send', 'text': tag + '|' + json.dumps({'n': n})}
+        else:
+            try:
+                ok = set(ev) == {'type', 'text'} and ev['type'] == 'websocket.send' and json.loads(ev['text']) == {'n': n}
+            except Exception:  # noqa
+                ok = False
+            return None if ok else 'the server got %r instead of a text event with the JSON document {"n": %d}' % (ev, n)
+        if kind == 'd' and isinstance(ev.get('bytes'), (bytearray, memoryview)):
+            ev = dict(ev, bytes=bytes(ev['bytes']))
+        return None if ev == want else 'the server got %r instead of %r' % (ev, want)
+
+    return handlers, do_send, wrong_event
+
+
+def close_event(code, ver, reasons):
+    """the event close(code) must pass to the server: the reason is looked up in the default_close_reasons in force and only sent under spec versions >= 2.3"""
+    ev = {'type': 'websocket.close', 'code': code}
+    if reasons.get(code) and tuple(map(int, ver.split('.'))) >= (2, 3):
+        ev['reason'] = reasons[code]
+    return ev
 
 
 F13_NAME = 'held <= capacity'
@@ -120,7 +228,7 @@ def schedules(quick):
             yield ''.join(s)
 
 
-def unbuffered_session(ctx, wsmod, errors):
+def unbuffered_session(ctx, wsmod, errors, sp):
     """max_receive_queue = 0: the real WebSocket is driven step by step; every executed atomic step (label, what the application
     observed, the public closed/ready/unaccepted properties after it) is replayed by the Wu small-step model (wudriver)."""
     import asyncio
@@ -128,8 +236,9 @@ def unbuffered_session(ctx, wsmod, errors):
     sess = ctx.session('unbuffered WebSocket (max_receive_queue=0) on a scripted loop: per-step observations, properties and final server-side counts equal the Wu small-step model',
                        'wudriver')
     opts = wsmod.WebSocketOptions()
+    handlers, do_send, wrong_event = sp
     LEGEND = ('A accept, R start the next receive (t = receive_text, d = receive_data), D server hands the next event to the outstanding pull, Y one loop turn, '
-              'C cancel the pending receive, S send_text, F send_text while the server\'s send() raises <fail>, X close(<close_code>); then drain=(YYDYYRYY)* or X Y R Y Y S')
+              'C cancel the pending receive, S send (entry point by `sends`), F send while the server\'s send() raises <fail>, X close(<close_code>); then drain=(YYDYYRYY)* or X Y R Y Y S; ' + SEND_LEGEND)
 
     def cs(c):
         return '-' if c is None else str(c)
@@ -168,7 +277,7 @@ def unbuffered_session(ctx, wsmod, errors):
         events = [mk(t, variant) for t in evtoks]
         ids = [DISC if t[0] == 'd' else int(t[1:]) for t in evtoks]
         o = {'pending': [], 'delivered': 0, 'handed': [], 'steps': [], 'observed': [], 'sent': [], 'fail': None, 'bad_pull': None,
-             'errors': [], 'cur': None, 'maxpulls': 0, 'nrecv': 0}
+             'errors': [], 'cur': None, 'maxpulls': 0, 'nrecv': 0, 'nsend': 0, 'sendrec': []}
 
         def flags():
             return ('c' if ws.closed else '-') + ('r' if ws.ready else '-') + ('u' if ws.unaccepted else '-')
@@ -197,7 +306,7 @@ def unbuffered_session(ctx, wsmod, errors):
             fk, o['fail'] = o['fail'], None
             if fk:
                 raise mkexc(fk)
-        ws = wsmod.WebSocket(cfg['ver'], {'subprotocols': []}, receive, send, opts.media_handlers, 0, dict(opts.default_close_reasons) if cfg['reasons'] else {})
+        ws = wsmod.WebSocket(cfg['ver'], {'subprotocols': []}, receive, send, handlers('u', cfg['tagged'], opts.media_handlers), 0, dict(opts.default_close_reasons) if cfg['reasons'] else {})
         hdr = 1 if ws.supports_accept_headers else 0
         recv_task = None
 
@@ -257,8 +366,10 @@ def unbuffered_session(ctx, wsmod, errors):
                     recv_task.cancel()
             elif ch in 'SF':
                 o['fail'] = fail_kind if ch == 'F' else None
+                kind = cfg['sends'][o['nsend'] % len(cfg['sends'])]; n = o['nsend']; o['nsend'] += 1
+                before = len(o['sent'])
                 try:
-                    await ws.send_text('x'); obs = 'sendOk'
+                    await do_send(ws, kind, n); obs = 'sendOk'
                 except errors.WebSocketDisconnected as e:
                     obs = 'sendWsd:%s' % cs(e.code)
                 except errors.OperationNotAllowed:
@@ -268,6 +379,7 @@ def unbuffered_session(ctx, wsmod, errors):
                 except Exception:  # noqa
                     obs = 'sendRaised'
                 o['fail'] = None
+                o['sendrec'].append((len(o['steps']), ch, kind, n, obs, o['sent'][before:]))
                 o['steps'].append(['S' if ch == 'S' else 'S:' + ('os:-' if fail_kind == 'os:x' else fail_kind), obs, flags()])
             elif ch == 'X':
                 before = len(o['sent'])
@@ -318,7 +430,7 @@ def unbuffered_session(ctx, wsmod, errors):
     def judge_u(evtoks, sched, pre_accept, kinds, close_code, fail_kind, ending, variant, cfg, res):
         o, steps, final, waiting, undelivered, ids, left, hdr = res
         case = {'capacity': 0, 'spec_version': cfg['ver'], 'default_close_reasons': 'stock' if cfg['reasons'] else 'empty', 'events': ' '.join(evtoks), 'schedule': sched, 'accept_first': pre_accept, 'receive_kinds': kinds, 'close_code': close_code,
-                'fail': fail_kind, 'ending': ending, 'other_payload_key_is_None': variant, 'legend': LEGEND,
+                'fail': fail_kind, 'ending': ending, 'other_payload_key_is_None': variant, 'sends': cfg['sends'], 'text_media_handler': 'tagged' if cfg['tagged'] else 'stock JSON', 'legend': LEGEND,
                 'steps': ['%s -> %s %s' % tuple(x) for x in steps][:120], 'observed': o['observed']}
         obs = [x[1] for x in steps]
         exp = ids[:ids.index(DISC) + 1] if DISC in ids else ids
@@ -356,10 +468,37 @@ def unbuffered_session(ctx, wsmod, errors):
         elif left:
             bad = '%d task(s) still running after close()' % left
         ctx.oracle('a receive that can be satisfied is never left waiting', bad is None, bad, case)
-        sess.case({k: case[k] for k in ('spec_version', 'default_close_reasons', 'events', 'schedule', 'accept_first', 'receive_kinds', 'close_code', 'fail', 'ending', 'other_payload_key_is_None')})
+        # 5. every send entry point: one event while the connection is open; WebSocketDisconnected and nothing passed to the server once the client's disconnect was handed over
+        bad = None
+        is_open = False; told = None
+        si = 0
+        for idx, (lab, ob, _) in enumerate(steps):
+            if si < len(o['sendrec']) and o['sendrec'][si][0] == idx:
+                _, ch, kind, n, sob, passed = o['sendrec'][si]; si += 1
+                ctx.count('unbuffered_send_entry_' + kind)
+                if bad is None and told is not None:
+                    if sob != 'sendWsd:' + told or passed:
+                        bad = ('%s after the client\'s disconnect had been reported gave %s and passed %d event(s) to the server (expected WebSocketDisconnected with code %s, nothing passed)'
+                               % (SEND_NAMES[kind], sob, len(passed), told))
+                    else:
+                        ctx.count('unbuffered_send_entry_%s_told_disconnect' % kind)
+                elif bad is None and is_open and ch == 'S':
+                    w = wrong_event(kind, n, 'u', cfg['tagged'], passed)
+                    if sob != 'sendOk':
+                        bad = '%s on an open connection gave %s' % (SEND_NAMES[kind], sob)
+                    elif w:
+                        bad = '%s on an open connection: %s' % (SEND_NAMES[kind], w)
+            if ob == 'acceptOk':
+                is_open = True
+            elif ob.startswith('wsdE:'):
+                is_open = False; told = ob[5:]
+            elif ob.startswith(('closeSent', 'sendWsd', 'sendVE')):
+                is_open = False
+        ctx.oracle('a client disconnect is reported to a sender promptly, and only then', bad is None, bad, case)
+        sess.case({k: case[k] for k in ('spec_version', 'default_close_reasons', 'events', 'schedule', 'accept_first', 'receive_kinds', 'close_code', 'fail', 'ending', 'other_payload_key_is_None', 'sends', 'text_media_handler')})
         sess.op('cfg %s 0 run ' % cfg['ver'] + ' '.join(evtoks) + ' | ' + ' '.join(x[0] for x in steps),
                 'hdr=%d ' % hdr + ' '.join('%s/%s' % (x[1], x[2]) for x in steps) + ' | ' + final)
-        ctx.seen(('u', tuple(evtoks), sched, pre_accept, kinds, close_code, fail_kind, ending, variant, cfg['ver'], cfg['reasons']), any(x.startswith('ret:') for x in obs))
+        ctx.seen(('u', tuple(evtoks), sched, pre_accept, kinds, close_code, fail_kind, ending, variant, cfg['ver'], cfg['reasons'], cfg['sends'], cfg['tagged']), any(x.startswith('ret:') for x in obs))
         ctx.count('unbuffered_runs'); ctx.count('unbuffered_ending_' + ending); ctx.count('unbuffered_spec_version_' + cfg['ver'])
         for pre, name in (('wsdE', 'unbuffered_disconnect_received'), ('wsdS', 'unbuffered_receive_on_closed_socket'), ('perr', 'unbuffered_payload_type_error'),
                           ('cancelled', 'unbuffered_receive_cancelled_while_parked'), ('closeSent', 'unbuffered_closed_by_app'), ('sendWsd', 'unbuffered_send_saw_disconnect'),
@@ -384,6 +523,24 @@ def unbuffered_session(ctx, wsmod, errors):
                         j += 1
                         args = (evtoks, sched, True, 't', None, None, ending, False, cfg_at(j))
                         judge_u(*args, await run_u(*args))
+        # directed: every send entry point (and all of them in turn) before the accept, on the open connection, with the server's send() failing, and after a
+        # receive has taken the client's disconnect / after close()
+        d = 0
+        for sends in ('t', 'd', 'm', 'T', 'B', 'tdmTB', 'BTmdt'):
+            for k in (0, 1, 2):
+                for disc in ('d1001', 'd-', 'd4000', None):
+                    for tail in ('S', 'SS', 'SXS', 'FS', 'SSSSS', 'XS'):
+                        d += 1
+                        if d % nsh != i:
+                            continue
+                        for pre in ('', 'S', 'F'):
+                            for fail_kind in ('os:1001', 'other'):
+                                j += 1
+                                evtoks = ['t%d' % n for n in range(k)] + ([disc] if disc else [])
+                                sched = pre + 'RYDY' * len(evtoks) + tail
+                                args = (evtoks, sched, j % 7 != 0, 't', None, fail_kind, 'drain', False, dict(cfg_at(j), sends=sends))
+                                judge_u(*args, await run_u(*args))
+                                ctx.count('unbuffered_directed_sender_runs')
         for _ in range(ctx.n(3000, 40000)):
             k = rnd.randint(0, 6)
             evtoks = [rnd.choice('ttb') + str(n) for n in range(k)]
@@ -411,8 +568,13 @@ def run(ctx):
     import falcon.asgi.ws as wsmod
     from falcon import errors
 
+    import logging
+    import falcon
+    falcon._logger.setLevel(logging.CRITICAL + 1)      # the App logs every refused route / failing responder of the histories below
+    sp = send_points()
+    handlers_for, do_send, wrong_event = sp
     opts = None
-    apps = {}
+    pool = {'cur': None, 'apps': 0, 'conn': 0}
     hook = {}
     SCOPE = {'type': 'websocket', 'path': '/ws', 'query_string': b'', 'headers': [], 'subprotocols': [], 'http_version': '1.1', 'scheme': 'ws',
              'server': ('127.0.0.1', 8000), 'client': ('127.0.0.1', 50000), 'root_path': ''}
@@ -424,20 +586,74 @@ def run(ctx):
             await ws.accept()
             h['instrument'](ws)
             h['box'].set_result(ws)
-            await h['release']
+            how = await h['release']
+            if how in ('return', 'raise'):        # the App itself closes the socket: right after the responder returned, or from its error handler
+                h['log'].append('stop')
+            if how == 'raise':
+                raise RuntimeError('the responder failed')
 
-    async def via_app(cfg, cap, reasons, receive, send, instrument):
-        """the WebSocket as an application gets it: built by falcon.asgi.App from ws_options.max_receive_queue and the scope's announced spec version"""
+    async def unrouted(app, ver):
+        """one connection to a route the App does not know: refused during the handshake"""
+        got = []
+        first = [True]
+
+        async def rcv():
+            if first[0]:
+                first[0] = False
+                return {'type': 'websocket.connect'}
+            await asyncio.get_running_loop().create_future()
+
+        async def snd(m):
+            got.append(m)
+        t = asyncio.ensure_future(app(dict(SCOPE, path='/nope', asgi={'version': '3.0', 'spec_version': ver}), rcv, snd))
+        for _ in range(50):
+            if t.done():
+                break
+            await asyncio.sleep(0)
+        if not t.done():
+            t.cancel()
+            await asyncio.gather(t, return_exceptions=True)
+            return 'not finished'
+        return 'closed with %s' % ','.join(str(m.get('code')) for m in got)
+
+    async def via_app(cfg, cap, reasons, handlers, receive, send, instrument, log):
+        """the WebSocket as an application gets it: built by falcon.asgi.App from the ws_options in force and the scope's announced spec version.
+        One App object serves a HISTORY of connections (LIMITS: 1..3, or as the directed histories say): before each of them max_receive_queue, media_handlers,
+        default_close_reasons (alternately by assigning new objects and by changing the existing dicts in place) and error_close_code are changed."""
         import falcon.asgi
         loop = asyncio.get_running_loop()
-        app = apps.get(cap)
-        if app is None:
-            app = apps[cap] = falcon.asgi.App()
+        ctl = cfg.get('app_ctl')
+        cur = pool['cur']
+        if cur is None or ctl == 'new' or (ctl != 'same' and len(cur['hist']) >= cur['limit']):
+            app = falcon.asgi.App()
             app.add_route('/ws', Parked())
-            app.ws_options.max_receive_queue = cap
-        app.ws_options.default_close_reasons = reasons
+            cur = pool['cur'] = {'app': app, 'hist': [], 'ops': [], 'limit': LIMITS[pool['apps'] % len(LIMITS)]}
+            pool['apps'] += 1
+        app = cur['app']
+        conn = pool['conn']; pool['conn'] += 1
+        wo = app.ws_options
+        if ctl is None and conn % 5 == 0:      # now and then a connection to an unknown route, under yet another capacity, comes first
+            wo.max_receive_queue = (cap + 1 + conn // 5) % 5
+            cur['ops'] += ['q%d' % wo.max_receive_queue, 'c' + cfg['ver']]
+            cur['hist'].append('max_receive_queue=%d, unknown route: %s' % (wo.max_receive_queue, await unrouted(app, cfg['ver'])))
+        style = 'assigned' if conn % 2 else 'changed in place'
+        err = ERR_CODES[conn % len(ERR_CODES)]
+        if conn % 2:
+            wo.default_close_reasons = reasons
+            wo.media_handlers = handlers
+        else:
+            wo.default_close_reasons.clear(); wo.default_close_reasons.update(reasons)
+            wo.media_handlers.update(handlers)
+        wo.error_close_code = err
+        untouched = not cur['hist'] and cap == 4 and conn % 2 == 0      # a new App is sometimes left with the stock max_receive_queue (4)
+        if not untouched:
+            wo.max_receive_queue = cap
+            cur['ops'].append('q%d' % cap)
+        info = {'history': list(cur['hist']), 'ops': ','.join(cur['ops']) or '-', 'error_close_code': err, 'options': style, 'queue_option_untouched': untouched}
+        cur['hist'].append('max_receive_queue=%d' % cap)
+        cur['ops'].append('c' + cfg['ver'])
         box = loop.create_future(); release = loop.create_future()
-        hook.update(box=box, release=release, instrument=instrument)
+        hook.update(box=box, release=release, instrument=instrument, log=log)
         first = [True]
 
         async def app_receive():
@@ -450,7 +666,7 @@ def run(ctx):
             if box.done() or task.done():
                 break
             await asyncio.sleep(0)
-        return (box.result() if box.done() else None), task, release
+        return (box.result() if box.done() else None), task, release, info
     sess = ctx.session('_BufferedReceiver event log (real WebSocket on a scripted loop) is a trace of the Wb segment model', 'wbdriver')
     f13_recorded = [0]
 
@@ -497,7 +713,9 @@ def run(ctx):
             events.append({'type': 'websocket.disconnect', 'code': 1001, 'n': DISC})
         o = {'pending': [], 'delivered': 0, 'maxpulls': 0, 'got': [], 'errors': [], 'sent': [], 'sends': [], 'f13': None, 'bound': None,
              'pull_idle': None, 'closed': False, 'disc_delivered': False, 'turns_since_disc': 0, 'prompt': None, 'active_recv': 0,
-             'quiet': 0, 'readahead': None, 'props': None, 'entry_failed': None}
+             'quiet': 0, 'readahead': None, 'props': None, 'entry_failed': None, 'nsend': 0, 'told': False, 'options': None, 'app': None,
+             'send_kinds': [], 'told_kinds': []}
+        sends = cfg.get('sends', 't'); tagged = cfg.get('tagged', False); finish = cfg.get('finish', 'harness')
 
         async def receive():
             f = loop.create_future(); o['pending'].append(f); log.append('pull')
@@ -521,13 +739,18 @@ def run(ctx):
             if cap > 0:
                 b._messages = LogDeque(log); b._loop = LoopProxy(loop, log, b)
         reasons = dict(opts.default_close_reasons) if cfg['reasons'] else {}
+        o['tag'] = tag = 'h%d' % pool['conn']
+        handlers = handlers_for(tag, tagged, opts.media_handlers)
         app_task = release = None
+        released = False
+        err_code = None
         if cfg['entry'] == 'direct':
-            ws = wsmod.WebSocket(cfg['ver'], {'subprotocols': []}, receive, send, opts.media_handlers, cap, reasons)
+            ws = wsmod.WebSocket(cfg['ver'], {'subprotocols': []}, receive, send, handlers, cap, reasons)
             await ws.accept()
             instrument(ws)
         else:
-            ws, app_task, release = await via_app(cfg, cap, reasons, receive, send, instrument)
+            ws, app_task, release, o['app'] = await via_app(cfg, cap, reasons, handlers, receive, send, instrument, log)
+            err_code = o['app']['error_close_code']
             if ws is None:
                 o['entry_failed'] = 'falcon.asgi.App did not hand an accepted WebSocket to the responder (task %s)' % (
                     'raised %r' % (app_task.exception(),) if app_task.done() and not app_task.cancelled() else 'still pending')
@@ -536,10 +759,13 @@ def run(ctx):
                 for f in list(o['pending']):
                     f.cancel()
                 await asyncio.sleep(0)
+                o['sent_at_accept'] = len(o['sent'])
                 return o, log, None, False, None, events
         br = ws._buffered_receiver
         o['hdr'] = 1 if ws.supports_accept_headers else 0
+        o['sent_at_accept'] = len(o['sent'])
         pump_task = br._pump_task
+        o['pump_started'] = pump_task is not None
         recv_task = None
 
         async def do_recv():
@@ -551,7 +777,7 @@ def run(ctx):
                 n = int(t[1:]); o['got'].append(n); log.append('recvRet:%d' % n)
             except errors.WebSocketDisconnected as e:
                 if e.code == 1001:
-                    o['got'].append(DISC); log.append('recvRet:%d' % DISC)
+                    o['got'].append(DISC); log.append('recvRet:%d' % DISC); o['told'] = True
                 else:
                     o['got'].append('synthetic'); log.append('recvSynthetic')
                 o['closed'] = True
@@ -612,27 +838,40 @@ def run(ctx):
                 if recv_task is not None and not recv_task.done():
                     recv_task.cancel()
             elif ch == 'S':
-                if not o['closed']:
+                # a sender that was told about the client's disconnect (by a send or by a receive) may try again, through any entry point: it must be told again
+                if not o['closed'] or o['told']:
+                    kind = sends[o['nsend'] % len(sends)]; n = o['nsend']; o['nsend'] += 1
                     before = len(o['sent'])
                     try:
-                        await ws.send_text('x'); r = 'ok'; log.append('sendOk')
+                        await do_send(ws, kind, n); r = 'ok'; log.append('sendOk')
                     except errors.WebSocketDisconnected as e:
                         r = 'WSD:%d' % e.code; log.append('sendDisc'); o['closed'] = True
+                        if e.code == 1001: o['told'] = True
                     except BaseException as e:  # noqa
-                        r = type(e).__name__; o['errors'].append('send raised %s: %s' % (r, e))
-                    o['sends'].append(r)
+                        r = type(e).__name__; o['errors'].append('%s raised %s: %s' % (SEND_NAMES[kind], r, e))
+                    o['sends'].append(r); o['send_kinds'].append(kind)
+                    passed = o['sent'][before:]
                     if cap > 0:
-                        must_fail = o['disc_delivered'] and o['turns_since_disc'] >= 1
+                        must_fail = (o['disc_delivered'] and o['turns_since_disc'] >= 1) or o['told']
                         must_pass = not o['disc_delivered']
                     else:
                         must_fail = DISC in o['got']; must_pass = not must_fail
+                    if must_fail and r == 'WSD:1001' and not passed:
+                        o['told_kinds'].append(kind)
                     if o['prompt'] is None:
-                        if must_fail and r != 'WSD:1001':
-                            o['prompt'] = 'send returned %s although the disconnect had been handed to the framework %d loop turn(s) earlier' % (r, o['turns_since_disc'])
+                        if must_fail and (r != 'WSD:1001' or passed):
+                            o['prompt'] = ('%s (send #%d) returned %s and passed %d event(s) to the server although the disconnect had been handed to the framework %d loop turn(s) earlier'
+                                           % (SEND_NAMES[kind], n, r, len(passed), o['turns_since_disc']))
                         elif must_pass and r != 'ok':
-                            o['prompt'] = 'send raised %s although the client had not disconnected' % r
-                        elif r == 'ok' and len(o['sent']) != before + 1:
-                            o['prompt'] = 'send returned ok but nothing reached the server'
+                            o['prompt'] = '%s (send #%d) raised %s although the client had not disconnected' % (SEND_NAMES[kind], n, r)
+                        elif r != 'ok' and passed:
+                            o['prompt'] = '%s (send #%d) raised %s, yet passed %r to the server' % (SEND_NAMES[kind], n, r, passed)
+                        elif r == 'ok' and len(passed) != 1:
+                            o['prompt'] = '%s (send #%d) returned, but %d events reached the server instead of exactly 1' % (SEND_NAMES[kind], n, len(passed))
+                    if r == 'ok' and o['options'] is None and len(passed) == 1:
+                        w = wrong_event(kind, n, tag, tagged, passed)
+                        if w:
+                            o['options'] = '%s (send #%d): %s' % (SEND_NAMES[kind], n, w)
             observe()
         o['trail'] = []
         for ch in sched:
@@ -640,18 +879,45 @@ def run(ctx):
         leftover = None
         if ending == 'close':
             o['trail'].append('X')
-            n_before = len(log)
-            log.append('stop')
-            await ws.close()
+            before = len(o['sent'])
+            # close() as the last send entry point: it passes exactly one close event to the server, or nothing once the client's disconnect was handed over
+            if cap > 0:
+                lost = (o['disc_delivered'] and o['turns_since_disc'] >= 1) or o['closed']
+                connected = not o['disc_delivered']
+            else:
+                lost = o['closed']; connected = not o['disc_delivered']
+            if app_task is not None and finish in ('return', 'raise'):
+                # the App closes: the responder logs 'stop' and returns / raises; nothing else runs between that and the cancellation of the pump
+                released = True
+                release.set_result(finish)
+                for _ in range(30):
+                    if app_task.done():
+                        break
+                    await asyncio.sleep(0)
+                code = 1000 if finish == 'return' else err_code
+                o['closer'] = 'the App, after the responder returned' if finish == 'return' else 'the App\'s error handler (error_close_code=%d), after the responder raised' % err_code
+            else:
+                log.append('stop')
+                await ws.close()
+                code = 1000
+                o['closer'] = 'the application (ws.close())'
             o['closed'] = True
+            passed = o['sent'][before:]
+            want = close_event(code, cfg['ver'], reasons)
+            if lost and passed:
+                o['prompt'] = o['prompt'] or ('close() by %s passed %r to the server although the client\'s disconnect had been handed over %d loop turn(s) earlier'
+                                              % (o['closer'], passed, o['turns_since_disc']))
+            elif connected and passed != [want] or passed not in ([], [want]):
+                if [m.get('type') for m in passed] == ['websocket.close']:
+                    o['options'] = o['options'] or 'close() by %s passed %r to the server, expected %r by the options in force' % (o['closer'], passed, want)
+                elif leftover is None:
+                    leftover = 'close() by %s passed %r to the server instead of one close event although the client had not disconnected' % (o['closer'], passed)
             if cap > 0 and pump_task is not None and not pump_task.done():
                 leftover = 'the pump task is still pending when close() returns'
             if br._pump_task is not None and leftover is None:
                 leftover = '_pump_task is still referenced after close()'
             if cap > 0 and [f for f in o['pending'] if not f.done()] and leftover is None:
                 leftover = 'a pull on the server is still outstanding after close()'
-            if (not o['sent'] or o['sent'][-1].get('type') != 'websocket.close') and not o['disc_delivered'] and leftover is None:
-                leftover = 'close() did not send a close event although the client had not disconnected'
             for _ in range(4):
                 await asyncio.sleep(0)
         else:
@@ -675,7 +941,8 @@ def run(ctx):
         if ending != 'close':
             await ws.close()
         if app_task is not None:            # let the parked responder return: the App then closes (a no-op here) and finishes
-            release.set_result(None)
+            if not released:
+                release.set_result(None)
             for _ in range(20):
                 if app_task.done():
                     break
@@ -701,8 +968,26 @@ def run(ctx):
         o, log, final, waiting, leftover, events = res
         case = {'capacity': cap, 'spec_version': cfg['ver'], 'entry': cfg['entry'] + (' (falcon.asgi.App, ws_options.max_receive_queue=%d)' % cap if cfg['entry'] == 'app' else ''),
                 'default_close_reasons': 'stock' if cfg['reasons'] else 'empty', 'messages': k, 'disconnect': disc, 'schedule': sched, 'ending': ending,
-                'legend': 'D deliver next event into the outstanding pull, R start receive_text(), Y one loop turn, C cancel the pending receive, S send_text, then drain=(YYDYYRYY)* or close()',
+                'sends': cfg.get('sends', 't'), 'send_results': ' '.join('%s:%s' % kr for kr in zip(o['send_kinds'], o['sends'])),
+                'text_media_handler': 'tagged' if cfg.get('tagged') else 'stock JSON',
+                'legend': 'D deliver next event into the outstanding pull, R start receive_text(), Y one loop turn, C cancel the pending receive, S send (entry point by `sends`), then drain=(YYDYYRYY)* or close(); ' + SEND_LEGEND,
                 'received': o['got'], 'event_log': log[:120]}
+        if o.get('closer'):
+            case['closed_by'] = o['closer']
+        hist = ()
+        if o['app'] is not None:
+            a = o['app']; hist = tuple(a['history'])
+            case['app_object_history'] = ('earlier connections served by the same falcon.asgi.App object: %s; then ws_options %s for this connection'
+                                          % ('; '.join(a['history']) or 'none (new App)', 'left at the stock max_receive_queue, other options ' + a['options'] if a['queue_option_untouched'] else a['options']))
+            case['error_close_code'] = a['error_close_code']
+            ctx.count('app_connection_%d_of_its_app_object' % min(len(hist) + 1, 4))
+            earlier = [h for h in hist]
+            if earlier and not earlier[-1].startswith('max_receive_queue=%d' % cap):
+                ctx.count('app_max_receive_queue_changed_since_previous_connection')
+            if any('unknown route' in h for h in hist):
+                ctx.count('app_served_an_unknown_route_before')
+            if a['queue_option_untouched']:
+                ctx.count('app_new_object_with_untouched_queue_option')
         ctx.count('spec_version_' + cfg['ver']); ctx.count('entry_' + cfg['entry'])
         if cfg['reasons']: ctx.count('with_stock_close_reasons')
         ctx.oracle('the configured application gets an accepted WebSocket', o['entry_failed'] is None, o['entry_failed'], case)
@@ -753,18 +1038,36 @@ def run(ctx):
         ctx.oracle('a receive that can be satisfied is never left waiting', bad is None, bad, case)
         # 4. disconnect reported to a sender promptly
         ctx.oracle('a client disconnect is reported to a sender promptly, and only then', o['prompt'] is None, o['prompt'], case)
+        ctx.oracle('every connection uses the options in force when it was made: each send entry point delivers its payload (media through the configured handler), close() the configured code and reason',
+                   o['options'] is None, o['options'], case)
         ctx.oracle('closed / ready report the client\'s disconnect one loop turn after it was handed to the framework, and an open connection before',
                    o['props'] is None, o['props'], case)
         # 5. closing stops the reader
         ctx.oracle('closing stops the background reader: no task left running, no outstanding pull', leftover is None, leftover, case)
         # correspondence: the logged atomic steps are a trace of the model, with matching final observables
-        if cap > 0:
-            sess.case({'capacity': cap, 'spec_version': cfg['ver'], 'entry': cfg['entry'], 'default_close_reasons': case['default_close_reasons'],
-                       'messages': k, 'disconnect': disc, 'schedule': sched, 'ending': ending})
-            # the model decides from (spec version, max_receive_queue) which receive path the socket uses (Wm.wire), then replays the log on it
-            sess.op('cfg %s %d log ' % (cfg['ver'], cap) + ' '.join(log),
-                    'hdr=%d accepted q=%d held=%d ret=%d dlv=%d disc=%d pump=%d' % (o['hdr'], final['q'], final['held'], final['ret'], final['dlv'], final['disc'], final['pump']))
-        ctx.seen((cap, k, disc, sched, ending, cfg['ver'], cfg['entry'], cfg['reasons']), bool([g for g in got if isinstance(g, int) and g != DISC]))
+        # the model decides which receive path the socket uses - from (spec version, max_receive_queue) for a WebSocket constructed directly (Wm.wire), from the
+        # App object's history of option changes and earlier connections for one made by falcon.asgi.App (Wm.serve) - and then replays the log on it
+        head = 'cfg %s %d' % (cfg['ver'], cap) if o['app'] is None else 'hist %s %s' % (o['app']['ops'], cfg['ver'])
+        if cap > 0 or o['app'] is not None:
+            meta = {'capacity': cap, 'spec_version': cfg['ver'], 'entry': cfg['entry'], 'default_close_reasons': case['default_close_reasons'],
+                    'messages': k, 'disconnect': disc, 'schedule': sched, 'ending': ending, 'sends': case['sends']}
+            if o['app'] is not None:
+                meta['app_object_history'] = case['app_object_history']
+                meta['protocol'] = 'hist: q<n> = ws_options.max_receive_queue = n, c<ver> = an earlier connection of the same App object'
+            if o.get('closer'):
+                meta['closed_by'] = o['closer']
+            sess.case(meta)
+            if cap > 0:
+                sess.op(head + ' log ' + ' '.join(log),
+                        'hdr=%d accepted q=%d held=%d ret=%d dlv=%d disc=%d pump=%d' % (o['hdr'], final['q'], final['held'], final['ret'], final['dlv'], final['disc'], final['pump']))
+            else:
+                sess.op(head + ' log ' + ' '.join(log), 'hdr=%d %s' % (o['hdr'], 'a pump task was started' if o['pump_started'] else 'direct'))
+        ctx.seen((cap, k, disc, sched, ending, cfg['ver'], cfg['entry'], cfg['reasons'], cfg.get('sends', 't'), cfg.get('tagged', False), o.get('closer'), hist),
+                 bool([g for g in got if isinstance(g, int) and g != DISC]))
+        for kd in o['send_kinds']: ctx.count('send_entry_' + kd)
+        for kd in o['told_kinds']: ctx.count('send_entry_%s_told_disconnect' % kd)
+        if o.get('closer'):
+            ctx.count('closed_by_' + ('application' if o['closer'].startswith('the application') else 'app_after_return' if 'returned' in o['closer'] else 'app_error_handler'))
         ctx.count('capacity_%d' % cap); ctx.count('ending_' + ending)
         if 'C' in sched: ctx.count('with_cancellation')
         if 'recvCancelled' in log: ctx.count('receive_actually_cancelled_while_parked')
@@ -804,7 +1107,8 @@ def run(ctx):
                         for entry in ('direct', 'app'):
                             for disc in (False, True):
                                 for ending in ('drain', 'close'):
-                                    cfg = {'ver': ver, 'entry': entry, 'reasons': (c + len(ver)) % 2 == 0}
+                                    j += 1
+                                    cfg = {'ver': ver, 'entry': entry, 'reasons': (c + len(ver)) % 2 == 0, 'sends': SEND_KINDS[j % 5], 'tagged': j % 4 < 2, 'finish': FINISHES[j % 3]}
                                     sched = ''.join(sch)
                                     judge(cap, 2, disc, sched, ending, cfg, await run_one(cap, 2, disc, sched, ending, cfg))
                                     ctx.count('configuration_cross_product_runs')
@@ -825,6 +1129,55 @@ def run(ctx):
                                 cfg = cfg_at(j)
                                 judge(cap, k, disc, sched, ending, cfg, await run_one(cap, k, disc, sched, ending, cfg))
                                 ctx.count('directed_full_queue_runs')
+        # directed: HISTORIES OF CONNECTIONS on one falcon.asgi.App object. Every pair and every triple of capacities 0..4 in turn on the same App (options changed
+        # in between, also between construction and the first connection); each connection runs a scenario in which its own capacity matters:
+        #   over   - capacity + 3 messages and a disconnect are handed over one per loop turn while nobody receives (bound, read-ahead), then drained (FIFO);
+        #   sender - min(capacity, 1) unread message(s), then the disconnect, while the application only sends (told promptly iff a pump reads ahead), then close();
+        #   short  - one message received, then close()
+        def scenario(name, cap, q):
+            if name == 'over':
+                return cap + 3, True, 'Y' + 'DY' * (cap + 2), 'drain'
+            if name == 'sender':
+                u = min(cap, q % 2)
+                return u, True, 'SY' + 'DY' * u + 'SDYSYS', 'close'
+            return 1, q % 2 == 0, 'YDRY', 'close'
+        h = 0
+        seqs = [(a, b) for a in range(5) for b in range(5)] + [(a, b, c3) for a in range(5) for b in range(5) for c3 in range(5)]
+        for caps in seqs:
+            if len(caps) == 2:
+                plans = (('short', 'over'), ('over', 'sender'), ('sender', 'over'), ('short', 'sender'))
+            else:
+                r = sum(caps) % 3
+                plans = ((('short', 'sender', 'over') * 2)[r:r + 3],)
+            for names in plans:
+                h += 1
+                if h % nsh != i:
+                    continue
+                for pos, cap in enumerate(caps):
+                    j += 1
+                    cfg = dict(cfg_at(j), entry='app', app_ctl='same' if pos else 'new')
+                    k, disc, sched, ending = scenario(names[pos], cap, h + pos)
+                    judge(cap, k, disc, sched, ending, cfg, await run_one(cap, k, disc, sched, ending, cfg))
+                    ctx.count('directed_app_history_connections')
+                ctx.count('directed_app_histories_of_%d_connections' % len(caps))
+        pool['cur'] = None
+        # directed: a SENDING-ONLY application around the client's disconnect, through every send entry point (and all of them in turn) and close(): capacity x
+        # unread messages 0..capacity in front of the disconnect (u = capacity: the pump is parked holding the disconnect) x entry point x what follows the hand-over
+        e = 0
+        for cap in (0, 1, 2, 3, 4):
+            for u in range(0, cap + 1):
+                for sends in ('t', 'd', 'm', 'T', 'B', 'tdmTB', 'BTmdt'):
+                    for tail in ('S', 'YS', 'YSS', 'YYSYSSSS', 'Y', 'YY', ''):
+                        e += 1
+                        if e % nsh != i:
+                            continue
+                        for entry in ('direct', 'app'):
+                            for ending in ('close', 'drain'):
+                                j += 1
+                                cfg = dict(cfg_at(j), entry=entry, sends=sends)
+                                sched = 'SY' + 'DY' * u + 'S' + 'D' + tail
+                                judge(cap, u, True, sched, ending, cfg, await run_one(cap, u, True, sched, ending, cfg))
+                                ctx.count('directed_sender_only_runs')
         for _ in range(ctx.n(4000, 60000)):
             cap = rnd.choice([0, 1, 1, 2, 3, 4]); k = rnd.randint(1, 8); disc = rnd.random() < 0.5
             sched = ''.join(rnd.choice('DDRRYYYCS') for _ in range(rnd.randint(5, 40)))
@@ -838,7 +1191,7 @@ def run(ctx):
         ctx.notes.append('shard %d: held == capacity + 1 (F13) observed in %d runs; the first %d are recorded as failures of oracle %r, the rest only counted'
                          % (ctx.shard[0], n13, f13_recorded[0], F13_NAME))
     sess.finish()
-    unbuffered_session(ctx, wsmod, errors)
+    unbuffered_session(ctx, wsmod, errors, sp)
 
 
 LEVEL_TEXT = ('Machine-checked proofs (Lean 4) over an atomic-segment transition system of falcon/asgi/ws.py _BufferedReceiver (pump task, receive(), cancellation of a parked '
@@ -850,7 +1203,9 @@ LEVEL_TEXT = ('Machine-checked proofs (Lean 4) over an atomic-segment transition
               'for every schedule handed-over ++ at-the-server = arrived and observed = handed-over (fifo_lossless_once, nothing_buffered), the disconnect is consumed exactly after everything before it and is sticky '
               '(disconnect_after_preceding, disconnect_sticky), a parked receive with an event available can always complete (parked_receive_completes); both paths refine the same FIFO specification '
               '(unbuffered_refines_fifo, buffered_unbuffered_agree). Which of the two paths a socket runs is decided by WebSocket.__init__ from max_receive_queue alone (model Wm: path_ignores_version, buffered_iff, '
-              'direct_iff, configured_capacity_bound), and every correspondence line lets the model derive the path from (announced spec version, configured queue) before replaying the run. Any enabled segment may fire, which over-approximates asyncio\'s ready queue. The model is tied to the real '
+              'direct_iff, configured_capacity_bound), and every correspondence line lets the model derive the path from (announced spec version, configured queue) before replaying the run. A falcon.asgi.App object is modelled as its '
+              'mutable options plus a history of option changes and connections (Wm.serve): every connection is wired from the options in force when it is made (connection_wiring, reconfigured_capacity_honoured, fresh_app_default), '
+              'and for WebSockets made by an App the correspondence line carries that history instead of the capacity. Any enabled segment may fire, which over-approximates asyncio\'s ready queue. The model is tied to the real '
               'falcon.asgi.ws.WebSocket on every run: the object is driven on a scripted event loop through every schedule up to the stated bounds (and random longer ones) with a '
               'logging deque and future factory, and the logged step sequence must be accepted by the compiled trace-inclusion checker with matching final observables; an '
               'independent oracle written from the statement decides failing schedules.')
